@@ -60,7 +60,7 @@ class LineGen:
         self.closed = True
 
 
-@contract(ES + ".parseEvents", props=["C15"], name=ES + ".parseEvents[one arbitrary turn; any number of pending data lines]", z3_ms=3000)
+@contract(ES + ".parseEvents", props=["C15", "C16"], name=ES + ".parseEvents[one arbitrary turn; any number of pending data lines]", z3_ms=3000)
 def parse_events_turn(B):
     ctx = B.ctx
     g = ctx.ghost
@@ -73,6 +73,10 @@ def parse_events_turn(B):
         return c.alloc("ext", init={"model": gens[-1]})
     B.prog.modular[HTTPING + ":parseLine"] = Stub(parse_line)
     B.prog.text_models["decode"] = lambda c, s, a, k: SV(UTF8(z(s)), "str")
+    # str.isdigit / isdecimal / isnumeric: arbitrary predicates of the text, NOT tied to what int() accepts ('\u00b2'.isdigit() is True
+    # and int('\u00b2') raises; so does a text of more digits than the interpreter's int-conversion limit)
+    for _pred in ("isdigit", "isdecimal", "isnumeric"):
+        B.prog.text_models[_pred] = (lambda nm: lambda c, s, a, k: SV(ufunc("str_" + nm, S, z3.BoolSort())(z(s)), "bool"))(_pred)
     ctx.assume(UTF8(z3.StringVal("")) == z3.StringVal(""))       # EXT: the empty byte string decodes to the empty text
     joined = {}
 
